@@ -27,6 +27,7 @@ class Knobs:
         self.p_fail = 0.2
         self.p_endpoint = 0.6
         self.max_nodes = 400
+        self.p_text_tail = 0.12
         if rng is not None:
             self.max_buf = rng.choice((0, 1, 2, 4, 8, 8, 16, 32, 70))
             self.max_list = rng.choice((0, 1, 1, 2, 2, 3, 5))
@@ -176,8 +177,13 @@ class Gen:
         sf, bf = self.L.types[tname]["fields"]
         if isinstance(bf["type"], dict):
             n = self.buf_size()
-            return ("tpm2b", tname, ("list", bf["type"]["list"],
-                                     [("prim", bf["type"]["list"], self.value(bf["type"]["list"])) for _ in range(n)]))
+            elems = [("prim", bf["type"]["list"], self.value(bf["type"]["list"])) for _ in range(n)]
+            if n and self.rng.random() < self.k.p_text_tail:
+                # buffers carrying text: end in LF / CR LF / NUL / space (container front-ends must not care)
+                tail = self.rng.choice(((10,), (13, 10), (0,), (32,), (13,)))
+                for j, b in enumerate(tail[-n:]):
+                    elems[n - len(tail[-n:]) + j] = ("prim", bf["type"]["list"], b)
+            return ("tpm2b", tname, ("list", bf["type"]["list"], elems))
         if self.rng.random() < self.k.p_absent or self.nodes > self.k.max_nodes:
             return ("tpm2b", tname, None)
         payload = self.node(bf["type"], depth=depth + 1)
